@@ -43,6 +43,7 @@ struct SchedOut {
     std::vector<int> decisions;
     uint64_t ndecisions = 0, switches = 0, blocked = 0, forced_unlock = 0, stalls = 0, sim_us = 0;
     bool truncated = false, deadlock = false;
+    int leaked_depth = 0;         // lock depth still held by finished threads
 };
 // run bodies[i] as sim thread i, fully serialised under the baton; returns when all finished
 void sim_run_threads(const SchedCfg &cfg, const std::vector<std::function<void()>> &bodies, SchedOut &out);
